@@ -61,6 +61,8 @@ def plan(tier, seed):
     specs.append({"name": "count", "kind": "count", "timeout": 3000})
     for i in range(4):
         specs.append({"name": "high%d" % i, "kind": "high", "shard": i, "cases": 4000 if tier == "quick" else 30000, "timeout": 3000})
+    for i in range(2):
+        specs.append({"name": "gfields%d" % i, "kind": "gfields", "shard": i, "cases": 1500 if tier == "quick" else 15000, "timeout": 3000})
     if tier == "thorough":
         specs.append({"name": "gridbc", "kind": "grid", "cells": [c for c in cells if c[2] <= 3000], "timeout": 3000,
                       "mode": {"boundscheck": True}})
@@ -70,7 +72,7 @@ def plan(tier, seed):
 def required(tier):
     return {"index_checked": 20000, "inverse_checked": 20000, "walk_steps": 20000, "coef_checked": 3000,
             "coef_beyond_table": 500, "large_roundtrips": 2000, "count_unique_checked": 1000, "spaces_exhausted": 60,
-            "high_ploidy_spaces_exhausted": 40, "high_ploidy_coef_checked": 3000, "high_ploidy_roundtrips": 8000}
+            "high_ploidy_spaces_exhausted": 40, "high_ploidy_coef_checked": 3000, "high_ploidy_roundtrips": 8000, "gfields_posterior_arrays_checked": 2000, "gfields_arrays_with_some_impossible_genotypes": 800, "gfields_likelihood_arrays_checked": 500}
 
 
 def coverage_extra(tier, col):
@@ -425,9 +427,74 @@ def run_high(spec, col, tier):
             col.sample({"n_alleles": na, "ploidy": ploidy, "N": n, "index": i, "allele_counts": [g.count(a) for a in range(na)]})
 
 
+
+def run_gfields(spec, col):
+    """The producers of G-length arrays in the exact caller: position i of genotype_posteriors / genotype_likelihoods must
+    belong to the i-th genotype of the VCF order, whatever the values are - including likelihoods of exactly -inf (hard 0/1
+    reads) for some genotypes, zero prior frequencies and inbreeding."""
+    from mchap.calling.exact import genotype_likelihoods, genotype_posteriors
+
+    from vlib.oracles import model as M
+
+    for c in range(spec["cases"]):
+        rng = gen.rng_for(int(spec.get("seed", 0)), ID, 70 + spec["shard"], c)
+        ploidy = int(rng.integers(1, 7))
+        na = int(rng.integers(1, 7))
+        gs = vcf_order(na, ploidy)
+        n = len(gs)
+        F = float(rng.choice([0.0, 0.0, 0.1, 0.5]))
+        f = None if rng.random() < 0.4 else rng.dirichlet(np.ones(na))
+        if f is not None and na >= 2 and rng.random() < 0.3:
+            f[int(rng.integers(na))] = 0.0
+            f = f / f.sum()
+        llk = rng.normal(-20, 8, size=n)
+        k_inf = int(rng.integers(0, n)) if rng.random() < 0.6 else 0
+        llk[rng.permutation(n)[:k_inf]] = -math.inf
+        lpr = [M.log_prior(g, na, F, f) for g in gs]
+        tot = [a + b for a, b in zip(llk.tolist(), lpr)]
+        top = max(tot)
+        col.case("GF|%d|%d" % (spec["shard"], c), nontrivial=n > 1)
+        if top == -math.inf:
+            col.count("gfields_undefined_posterior_skipped")
+            continue
+        w = [0.0 if t == -math.inf else math.exp(t - top) for t in tot]
+        z = math.fsum(w)
+        want = np.array([x / z for x in w])
+        try:
+            got = np.asarray(genotype_posteriors(llk.copy(), ploidy, na, F, f), dtype=float)
+        except Exception as ex:  # noqa: BLE001
+            col.violation("g-field-position-wrong", "genotype_posteriors raised %r (ploidy %d alleles %d, %d likelihoods of -inf)" % (ex, ploidy, na, k_inf), {"kind": "gfield", "ploidy": ploidy, "n_alleles": na})
+            continue
+        col.count("gfields_posterior_arrays_checked")
+        if k_inf and k_inf < n:
+            col.count("gfields_arrays_with_some_impossible_genotypes")
+        if got.shape != (n,) or not np.all(np.abs(got - want) <= 1e-9):
+            i = int(np.argmax(np.abs(got - want))) if got.shape == (n,) else -1
+            col.violation("g-field-position-wrong", "genotype_posteriors: position %d (genotype %s in VCF order) holds %.10g, likelihood x prior of that genotype normalised is %.10g (ploidy %d alleles %d F %g, %d of %d likelihoods are -inf)"
+                          % (i, gs[i] if i >= 0 else None, got[i] if i >= 0 else float("nan"), want[i] if i >= 0 else float("nan"), ploidy, na, F, k_inf, n),
+                          {"kind": "gfield", "ploidy": ploidy, "n_alleles": na})
+        # likelihood array: one distinguishable haplotype per allele, a single read
+        if na >= 2 and ploidy <= 4:
+            haps = np.arange(na, dtype=np.int8).reshape(na, 1)
+            reads = rng.dirichlet(np.ones(na), size=1).reshape(1, 1, na)
+            if rng.random() < 0.5:
+                reads[0, 0, int(rng.integers(na))] = 0.0   # an impossible base call: genotypes made only of that allele get -inf
+                reads = reads / reads.sum()
+            gl = np.asarray(genotype_likelihoods(reads, ploidy, haps), dtype=float)
+            col.count("gfields_likelihood_arrays_checked")
+            for i, g in enumerate(gs):
+                p_ = sum(reads[0, 0, a] for a in g) / ploidy
+                w_ = math.log(p_) if p_ > 0 else -math.inf
+                if gl.shape != (n,) or not ((gl[i] == w_) if math.isinf(w_) or math.isinf(gl[i]) else abs(gl[i] - w_) <= 1e-5 * max(1.0, abs(w_))):
+                    col.violation("g-field-position-wrong", "genotype_likelihoods: position %d (genotype %s) holds %r, the likelihood of that genotype is %r" % (i, g, float(gl[i]) if gl.shape == (n,) else None, w_),
+                                  {"kind": "gfield", "ploidy": ploidy, "n_alleles": na})
+                    break
+
 def run_shard(tier, seed, spec, col):
     spec = dict(spec)
     spec["seed"] = seed
+    if spec["kind"] == "gfields":
+        return run_gfields(spec, col)
     if spec["kind"] == "high":
         return run_high(spec, col, tier)
     {"grid": run_grid, "coef": run_coef, "large": run_large, "count": run_count}[spec["kind"]](spec, col)
